@@ -18,7 +18,9 @@
 (*       enc    : "none" | "gzip" ...   \* encoding named in the header    *)
 (*       frames : Seq([flag, len, ilen, body, id, corrupt]),               *)
 (*       cut    : Nat       \* bytes that arrive before the tail           *)
-(*       tail   : "eof" | "ueof" | "err",                                  *)
+(*       tail   : "eof" | "ueof" | "err" | "ctxc" | "ctxd",                *)
+(*                \* ctxc / ctxd: the call's context is cancelled / expires *)
+(*                \* there and the body read fails with its error (C15)     *)
 (*       trailers : "none" | "ok" | "err"]   \* gRPC HTTP trailers         *)
 (*                                                                         *)
 (* frame.body: "msg" (decodes to message `id`), "zero" (len 0), "bad"      *)
@@ -73,8 +75,10 @@ FrameClass(s, f) ==
   ELSE "decode"
 
 (* How the stream ends when it stops inside / before frame i with `partial` bytes of it. *)
+CtxTails == {"ctxc", "ctxd"}
 TailClass(s, partial) ==
-  IF s.tail # "eof" THEN "transport"
+  IF s.tail \in CtxTails THEN s.tail
+  ELSE IF s.tail # "eof" THEN "transport"
   ELSE IF partial > 0 THEN "truncated"
   ELSE IF s.side = "handler" THEN "end"
   ELSE IF s.proto = "grpc"
@@ -104,7 +108,8 @@ Scan(s, i, acc) ==
 (* unary Connect: the whole body is one message; a clean cut cannot be seen (don't care) *)
 RawExpect(s) ==
   LET f == s.frames[1] IN
-  IF s.limit > 0 /\ Avail(s) > s.limit THEN [out |-> <<>>, res |-> {"limit", "transport"}]
+  IF s.limit > 0 /\ Avail(s) > s.limit THEN [out |-> <<>>, res |-> {"limit", "transport"} \cup (CtxTails \cap {s.tail})]
+  ELSE IF s.tail \in CtxTails THEN [out |-> <<>>, res |-> {s.tail}]
   ELSE IF s.tail # "eof" THEN [out |-> <<>>, res |-> {"transport"}]
   ELSE IF Avail(s) < f.len THEN [out |-> <<>>, res |-> {"dontcare"}]
   ELSE LET c == FrameClass(s, f) IN
@@ -227,6 +232,8 @@ CodesOf(s, c) ==
     [] c = "inflate"    -> IF s.side = "handler" THEN {3} ELSE AnyCode
     [] c = "special_request" -> 0..16
     [] c = "dontcare"   -> 0..16
+    [] c = "ctxc"       -> {1}         \* C15: cancel() while receiving => canceled
+    [] c = "ctxd"       -> {4}         \*      the deadline passing     => deadline_exceeded
     [] OTHER            -> AnyCode     \* truncated, transport, noterm, flags, endbad
 
 (* -------- writer half: envelopeWriter.Write -------- *)
